@@ -75,6 +75,30 @@ CHECKS = {
          "every commutative ring. The check evaluates each law as a relation between runs of the real learners and runs "
          "a reduced learner=model correspondence through which the theorems transfer.",
          "5 C13", "Coq proof (ring algebra, induction on events) + metamorphic relations on the real learners"),
+ "C04": ("proof", "Theorems about the submit loop of create_binary_event_files as a transition system: for EVERY schedule of "
+         "submissions and deliveries (any number of workers, any per-job delay) the finished call reports exactly n events "
+         "(C04_reports_all_events) and terminates: at most n/per + 4*n_jobs jobs are submitted, a measure decreases with "
+         "every step and some step is enabled while the call has not returned (C04_conversion_terminates, "
+         "C04_protocol_terminates; in particular for exact multiples, whose pre-repair logic is proved to hang for every "
+         "schedule: C04_exact_multiple_hangs); chunk k holds exactly events k*per..(k+1)*per-1 (C04_job_file), chunks in "
+         "numeric order concatenate to the file (C04_chunks_concat), int(str(i)) = i and the numeric sort restores the order "
+         "from any directory listing while the lexicographic one fails from 11 chunks on. Correspondence X-chunk with "
+         "permuted completion order, amplified submit/close race, frequency columns, deadline. Partial: real timing is "
+         "a deadline.",
+         "5 C04", "Coq proof (protocol invariant + termination measure over all schedules, window/concat lemmas) + differential runs under a deadline"),
+ "C18": ("proof", "Theorems C18_cov_identity, C18_pearson / C18_pearson_r2 (square-root free characterisation of Pearson's r over "
+         "the rationals: no real-number axioms), C18_cell_local, C18_omp_chunks_partition, C18_schedule_independent (every cell "
+         "written exactly once for every chunk size, thread count and interleaving), C18_degenerate (+_which, zero/NaN "
+         "deviation iff constant/NaN column). Correspondence X-corr: the kernel called directly with dyadic statistics "
+         "(exact), the wrapper on integer matrices incl. small-magnitude columns (r^2 within 1e-12 of the exact value, sign, "
+         "cross-check against the reference), all layouts, n_jobs 1..32, chunksize 1..50, degenerate columns at every "
+         "position. Partial: numpy mean/std and NaN propagation are trusted.",
+         "5 C18", "Coq proof (field algebra over Qc, partition of the event range) + exact / tight-tolerance differential correspondence"),
+ "C19": ("proof", "Theorems C19_sort_perm_invariant / C19_walk_order_irrelevant, C19_cleaning, C19_imap_ordered (every worker "
+         "count and pool schedule delivers in task order), C19_output, C19_missing_recorded, C19_never_overwrites, with the "
+         "pre-repair logic refuted (C19_missing_crashes_refuted). gzip/ElementTree are oracles: the harness writes the XML. "
+         "Correspondence X-corpus: generated subtitle trees, dangling links, n_threads 1..6, byte-exact output and .not_found.",
+         "5 C19", "Coq proof (sort invariance, ordered imap state machine) + byte-exact differential correspondence"),
  "C06": ("proof", "Theorems C06_decode_encode, C06_kernel_reads_same (buffer re-allocation invariant, any ids per event), "
          "C06_bad_header_rejected / C06_good_chunks_accepted (any position in any chunk list), C06_flat_index_no_wrap / "
          "_injective (matrices with more than 2^32 cells), refuted variants for the pre-repair logic. Correspondence "
